@@ -82,6 +82,19 @@ CLAIMED = {
         "filters (not {} / pure unbounded range scans, ids/authors of 64 hex digits, no `search`).",
         "DESIGN.md §6 C02",
     ),
+    "C12": (
+        "Lean 4 theorems (count bound, limited answer = prefix of the unlimited scan, SQL ORDER BY/LIMIT law over an insertion-sort model) + differential correspondence of ordered answers + oracle on counts/recency",
+        "Proof: NostrRelay/Props/C12.lean proves for every store and plan that the LMDB answer has at most n events and is "
+        "the first n of the unlimited scan (so a limit never reorders or skips, and n >= number of hits truncates nothing); "
+        "for SQL that the answer has at most min(limit, default) rows, all of them matching rows, newest first, and that no "
+        "omitted matching row is newer than a sent one, for every state and REQ; effectiveLimit <= default_limit. The "
+        "cases where the current code violates C12 (per-value order, MultiIndex set order, missing max_limit cap and null "
+        "limit on LMDB; limit 0 and one LIMIT per REQ on SQL) are witnesses + known findings.",
+        "Trusted: as C01/C02; SQLite's ORDER BY/LIMIT is modelled by an insertion sort (ties: any order is accepted by the "
+        "tie); Config.max_limit is set to 20 by the harness so that the cap is reachable; newest-first of single-match LMDB "
+        "scans is proved in Props/C02Scan.lean when present, otherwise only observed.",
+        "DESIGN.md §6 C12",
+    ),
 }
 
 NOT_YET = "not reached yet in this round (model/tie not built); see DESIGN.md §10 staging — no weaker technique is substituted"
